@@ -116,8 +116,8 @@ theorem del_clean (e : List (List UInt8)) (m : List UInt8) (p : Path) (h : Clean
     `first` = the parent was just opened (the next node becomes its first child), otherwise the
     cursor is on the last child -/
 def Mode (first : Bool) (dep : Nat) (b : Build) (prev : Nat) : Prop :=
-  if first then (prev ≠ 0 ∧ prev &&& Flag.sectEnd = 0 ∧ b.depth = dep)
-  else (prev &&& Flag.sectEnd ≠ 0 ∧ b.depth = dep + 1)
+  if first then (prev ≠ 0 ∧ prev &&& 3 = 1 ∧ b.depth = dep)
+  else (prev ≠ 0 ∧ prev &&& 3 ≠ 1 ∧ b.depth = dep + 1)
 
 /-- `mpt_node_append` for a section start or an option -/
 theorem nodeAppend_new (first : Bool) (dep : Nat) (b : Build) (prev : Nat) (s1 : St) (code : Int)
@@ -133,7 +133,6 @@ theorem nodeAppend_new (first : Bool) (dep : Nat) (b : Build) (prev : Nat) (s1 :
     have : ¬ (n.length + 1 > 65535) := by omega
     simp [this]
   unfold Mode at hmode
-  simp only [Flag.sectEnd] at hmode
   unfold nodeAppend
   rcases hcode with ⟨hc, hv⟩ | ⟨hc, hv⟩ | ⟨hc, hv⟩ <;> subst hc <;> subst hv
   all_goals
@@ -144,17 +143,17 @@ theorem nodeAppend_new (first : Bool) (dep : Nat) (b : Build) (prev : Nat) (s1 :
       simp [Flag.sectEnd, Flag.section_, Flag.data, hname, metaNew, h1, h2, h3]
     | false =>
       simp only [Bool.false_eq_true, ↓reduceIte] at hmode
-      obtain ⟨h2, h3⟩ := hmode
-      simp [Flag.sectEnd, Flag.section_, Flag.data, hname, metaNew, h2, h3]
+      obtain ⟨h1, h2, h3⟩ := hmode
+      simp [Flag.sectEnd, Flag.section_, Flag.data, hname, metaNew, h1, h2, h3]
 
 /-- `mpt_node_append` for a section end behind a child -/
 theorem nodeAppend_end (dep : Nat) (b : Build) (prev : Nat) (s1 : St) (hmode : Mode false (dep + 1) b prev) :
     nodeAppend b s1 prev 2 = some { b with depth := dep + 1 } := by
   unfold Mode at hmode
-  simp only [Bool.false_eq_true, ↓reduceIte, Flag.sectEnd] at hmode
-  obtain ⟨h2, h3⟩ := hmode
+  simp only [Bool.false_eq_true, ↓reduceIte] at hmode
+  obtain ⟨h1, h2, h3⟩ := hmode
   unfold nodeAppend
-  simp [Flag.sectEnd, h2, h3]
+  simp [Flag.sectEnd, Flag.section_, h1, h2, h3]
 
 
 /-! ### the induction over the written forest -/
@@ -335,10 +334,10 @@ omit hst hd in
 theorem nodeAppend_end_first (dep : Nat) (b : Build) (prev : Nat) (s1 : St) (hmode : Mode true dep b prev) :
     nodeAppend b s1 prev 2 = some b := by
   unfold Mode at hmode
-  simp only [↓reduceIte, Flag.sectEnd] at hmode
+  simp only [↓reduceIte] at hmode
   obtain ⟨_, h2, _⟩ := hmode
   unfold nodeAppend
-  simp [Flag.sectEnd, h2]
+  simp [Flag.sectEnd, Flag.section_, h2]
 
 /-- a node without children and without value written as an empty section: start line, end line -/
 theorem treeClaim_empty (n : List UInt8) (v : Option (List UInt8)) (c : CloseDecor) (kk dep : Nat)
@@ -482,7 +481,7 @@ theorem forestClaim_all : ∀ f, ForestClaim (k := k) (cfg := cfg) (openL := ope
 
 /-- the element loop on a whole text in a nested style, from any clean parser state -/
 theorem loop_nest (f : Forest) (hok : nodesOk f = true) (hfit : forestFits cfg.sect cfg.opt f = true) (s : St) (prev : Nat)
-    (hprev : prev ≠ 0 ∧ prev &&& Flag.sectEnd = 0)
+    (hprev : prev ≠ 0 ∧ prev &&& 3 = 1)
     (hclean : Clean [] s.path) (hv : s.valid = 0) (tail : List UInt8) (b : Bool) (htail : visSkip false tail = some b) :
     (loop k cfg nodeAppend ({} : Build) prev s { rest := renderNest openL d 0 f ++ tail }).code = 0
     ∧ (loop k cfg nodeAppend ({} : Build) prev s { rest := renderNest openL d 0 f ++ tail }).ctx.forest = norm f := by
